@@ -353,3 +353,21 @@ Definition maps_to_new_label (s : schema) (_ : list action) (a : action) : bool 
   | _ => false
   end.
 Definition known_C05_enum_fill_before_rebuild (s : schema) (acts : list action) : bool := exists_step maps_to_new_label s acts.
+
+(* ---- C02-nullable-fill-bareword-enum: ModifyColumnNullable to NOT NULL on an enum column whose fill value is a bare word
+   (since fix 446c8b4 `revision` proposes the column default, DefaultValue::to_sql, which for an enum default written
+   without quotes is the bare label): modify_column_nullable.rs:25-40 writes it into UPDATE … SET c = label unquoted
+   (add_column.rs passes the same value through normalize_enum_default): "no such column: label" *)
+Definition fills_enum_with_bareword (s : schema) (_ : list action) (a : action) : bool :=
+  match a with
+  | ModifyColumnNullable t c false (Some f) =>
+      match find_table t s with
+      | Some td => match find_col c (t_columns td) with
+                   | Some cd => (is_enum_type (c_type cd) && needs_quoting (convert_default (if String.eqb f "" then "''" else f)))%bool
+                   | None => false
+                   end
+      | None => false
+      end
+  | _ => false
+  end.
+Definition known_C02_nullable_fill_bareword_enum (s : schema) (acts : list action) : bool := exists_step fills_enum_with_bareword s acts.
